@@ -511,6 +511,8 @@ Fixpoint reg_ops (fuel : nat) (t : table) (l : list N) : list val :=
             | 8 => let '(r0, t1) := sanitise t in ([match fst r0 with ASuccess => VS "SUCCESS" | AUninit => VS "UNINITIALISED" | _ => VS "REFUSED" end], t1)
             | 9 => let '(r0, hs) := foreach_in t (g 0%nat) (g 1%nat) (map (fun x => (Z.of_N x - 1)%Z) (skipn 2 a)) in
                    ((accv' r0 ++ [VL (map VN hs)])%list, t)
+            | 12 => (* the caller switches the table's byte order: register_make_bigendian *)
+                   ([VS "order"], {| t_init := t_init t; t_during := t_during t; t_be := negb (g 0%nat =? 0); t_areas := t_areas t; t_entries := t_entries t |})
             | 11 => (* the caller edits the table description: register k gets a new address (to be followed by a new initialisation) *)
                    match nth_error (t_entries t) (N.to_nat (g 0%nat)) with
                    | Some e => ([VS "edit"], set_entries t (upd (t_entries t) (N.to_nat (g 0%nat))
